@@ -63,6 +63,24 @@ def install(E):
             return ok(old)
         return err(old)
 
+    @reg(E, 'Atomic::compare_exchange', 'Atomic::compare_exchange_weak', shared='atomic.compare_exchange')
+    def compare_exchange(E, a, ctx):
+        # (the weak form may also fail spuriously; a correct retry loop reloads and makes progress either way, so the strong
+        # form is explored: a loop that spins under it spins in reality as well)
+        old = E.load(a[0])
+        E.events.append(('atomic.compare_exchange', ctx.thread.tid))
+        if E.decide(old == a[1]):
+            E.store(a[0], a[2])
+            return ok(old)
+        return err(old)
+
+    @reg(E, 'Atomic::swap', shared='atomic.swap')
+    def a_swap(E, a, ctx):
+        old = E.load(a[0])
+        E.store(a[0], a[1])
+        E.events.append(('atomic.swap', ctx.thread.tid))
+        return old
+
     @reg(E, 'Atomic::load', shared='atomic.load')
     def a_load(E, a, ctx):
         return E.load(a[0])
